@@ -104,6 +104,12 @@ func (w *World) verifyContract(con *Contract, opts *RunOpts) (res *FuncResult) {
 			}()
 			st := sc.St
 			e.scenario = strings.Join(sc.Desc, " ")
+			// scenario set-up that links separately shaped inputs (an entry of g's map
+			// keyed by the parameter t, say)
+			for _, su := range con.clauses("setup") {
+				ctx := &EvalCtx{sp: w.specs, env: sc.Env, st: st, old: st, ex: e, origin: con.Func + "/setup"}
+				ctx.eval(su.Expr)
+			}
 			// preconditions
 			for _, rq := range con.clauses("requires") {
 				var defs []*T
